@@ -1129,14 +1129,27 @@ def layout(tokens, rng, mode="random", filename="f.c", directives=True):
         if mode == "random" and directives and rng.random() < 0.06:
             if col != 1:
                 emit("\n")
-            nl = rng.randint(1, 9000)
-            if rng.random() < 0.5:
-                nf = rng.choice(["inc/a.h", "b.c", "dir/sub/c.h"])
-                emit(f"# {nl} \"{nf}\"{rng.choice(['', ' 1', ' 2 3'])}\n")
-                cur_file = nf
-            else:
-                emit(f"#line {nl}\n")
-            line = nl
+            # a run of one to three directives of every form (with / without the word `line`, with / without a file name,
+            # with linemarker flags, indented, separated by blank lines or not)
+            for _ in range(rng.choice([1, 1, 1, 2, 2, 3])):
+                nl = rng.randint(1, 9000)
+                emit(rng.choice(["", "", " ", "\t"]))
+                form = rng.randint(0, 3)
+                if form == 0:
+                    nf = rng.choice(["inc/a.h", "b.c", "dir/sub/c.h"])
+                    emit(f"# {nl} \"{nf}\"{rng.choice(['', ' 1', ' 2 3'])}\n")
+                    cur_file = nf
+                elif form == 1:
+                    nf = rng.choice(["inc/a.h", "x y.c"])
+                    emit(f"#line {nl} \"{nf}\"\n")
+                    cur_file = nf
+                elif form == 2:
+                    emit(f"#line {nl}\n")
+                else:
+                    emit(f"#{rng.choice([' ', '  ', chr(9)])}{nl}\n")
+                line = nl
+                if rng.random() < 0.2:
+                    emit("\n")
             emit(rng.choice(["", "  ", "\t"]))
         pos.append((cur_file, line, col))
         emit(sp)
